@@ -357,6 +357,35 @@ impl Number {
     }
 }
 
+/// Order an exact number against a float by the float's exact value (a double is a
+/// ratio m * 2^e). Converting the exact operand to f64 instead rounds it, which made
+/// 2^53 + 1 equal to 9007199254740992.0 and 7/10 equal to 0.7.
+fn cmp_exact_float(exact: &Number, float: f64) -> Option<Ordering> {
+    if float.is_nan() {
+        return None;
+    }
+    if float.is_infinite() {
+        return Some(if float > 0_f64 {
+            Ordering::Less
+        } else {
+            Ordering::Greater
+        });
+    }
+    let exact = match exact {
+        // an integer of at most 53 bits converts exactly
+        Number::Fixnum(num) if num.unsigned_abs() <= (1 << 53) => {
+            return (*num as f64).partial_cmp(&float)
+        }
+        Number::Fixnum(num) => BigRational::from_integer(BigInt::from(*num)),
+        Number::BigInt(num) => BigRational::from_integer((**num).clone()),
+        Number::Rational(num) => {
+            BigRational::new(BigInt::from(*num.numer()), BigInt::from(*num.denom()))
+        }
+        Number::Float(num) => return num.partial_cmp(&float),
+    };
+    exact.partial_cmp(&BigRational::from_float(float)?)
+}
+
 impl Eq for Number {}
 impl PartialEq for Number {
     fn eq(&self, rhs: &Self) -> bool {
@@ -364,7 +393,7 @@ impl PartialEq for Number {
             Number::Fixnum(lhs) => match rhs {
                 Number::Fixnum(rhs) => lhs == rhs,
                 Number::BigInt(rhs) => BigInt::from(*lhs) == **rhs,
-                Number::Float(rhs) => *lhs as f64 == *rhs,
+                Number::Float(rhs) => cmp_exact_float(self, *rhs) == Some(Ordering::Equal),
                 Number::Rational(rhs) => {
                     if lhs.to_i32().is_some() {
                         Rational32::from_integer(*lhs as i32) == *rhs
@@ -376,20 +405,17 @@ impl PartialEq for Number {
             Number::BigInt(lhs) => match rhs {
                 Number::Fixnum(rhs) => **lhs == BigInt::from(*rhs),
                 Number::BigInt(rhs) => lhs == rhs,
-                Number::Float(rhs) => lhs.to_f64().unwrap() == *rhs,
+                Number::Float(rhs) => cmp_exact_float(self, *rhs) == Some(Ordering::Equal),
                 Number::Rational(rhs) => match lhs.to_i32() {
                     Some(lhs) => Rational32::from_integer(lhs) == *rhs,
                     None => false,
                 },
             },
             Number::Float(lhs) => match rhs {
-                Number::Fixnum(rhs) => *lhs == *rhs as f64,
+                Number::Fixnum(_) => cmp_exact_float(rhs, *lhs) == Some(Ordering::Equal),
                 Number::Float(rhs) => lhs == rhs,
-                Number::BigInt(rhs) => *lhs == rhs.to_f64().unwrap(),
-                Number::Rational(rhs) => match rhs.to_f64() {
-                    Some(rhs) => *lhs == rhs,
-                    None => false,
-                },
+                Number::BigInt(_) => cmp_exact_float(rhs, *lhs) == Some(Ordering::Equal),
+                Number::Rational(_) => cmp_exact_float(rhs, *lhs) == Some(Ordering::Equal),
             },
             Number::Rational(lhs) => match rhs {
                 Number::Fixnum(rhs) => {
@@ -399,10 +425,7 @@ impl PartialEq for Number {
                         false
                     }
                 }
-                Number::Float(rhs) => match lhs.to_f64() {
-                    Some(lhs) => lhs == *rhs,
-                    None => false,
-                },
+                Number::Float(rhs) => cmp_exact_float(self, *rhs) == Some(Ordering::Equal),
                 Number::BigInt(rhs) => match rhs.to_i32() {
                     Some(rhs) => *lhs == Rational32::from_integer(rhs),
                     None => false,
@@ -419,7 +442,7 @@ impl PartialOrd for Number {
             Number::Fixnum(lhs) => match rhs {
                 Number::Fixnum(rhs) => lhs.partial_cmp(rhs),
                 Number::BigInt(rhs) => BigInt::from(*lhs).partial_cmp(&**rhs),
-                Number::Float(rhs) => (*lhs as f64).partial_cmp(rhs),
+                Number::Float(rhs) => cmp_exact_float(self, *rhs),
                 Number::Rational(rhs) => {
                     if lhs.to_i32().is_some() {
                         Rational32::from_integer(*lhs as i32).partial_cmp(rhs)
@@ -434,7 +457,7 @@ impl PartialOrd for Number {
             Number::BigInt(lhs) => match rhs {
                 Number::Fixnum(rhs) => (**lhs).partial_cmp(&BigInt::from(*rhs)),
                 Number::BigInt(rhs) => (**lhs).partial_cmp(&**rhs),
-                Number::Float(rhs) => (**lhs).to_f64().unwrap().partial_cmp(rhs),
+                Number::Float(rhs) => cmp_exact_float(self, *rhs),
                 Number::Rational(rhs) => match lhs.to_i32() {
                     Some(lhs) => Rational32::from_integer(lhs).partial_cmp(rhs),
                     None if lhs.is_negative() => Some(Ordering::Less),
@@ -442,10 +465,10 @@ impl PartialOrd for Number {
                 },
             },
             Number::Float(lhs) => match rhs {
-                Number::Fixnum(rhs) => lhs.partial_cmp(&(*rhs as f64)),
+                Number::Fixnum(_) => cmp_exact_float(rhs, *lhs).map(Ordering::reverse),
                 Number::Float(rhs) => lhs.partial_cmp(rhs),
-                Number::BigInt(rhs) => lhs.partial_cmp(&(**rhs).to_f64().unwrap()),
-                Number::Rational(rhs) => lhs.partial_cmp(&rhs.to_f64().unwrap()),
+                Number::BigInt(_) => cmp_exact_float(rhs, *lhs).map(Ordering::reverse),
+                Number::Rational(_) => cmp_exact_float(rhs, *lhs).map(Ordering::reverse),
             },
             Number::Rational(lhs) => match rhs {
                 Number::Fixnum(rhs) => {
@@ -458,7 +481,7 @@ impl PartialOrd for Number {
                         Some(Ordering::Less)
                     }
                 }
-                Number::Float(rhs) => lhs.to_f64().unwrap().partial_cmp(rhs),
+                Number::Float(rhs) => cmp_exact_float(self, *rhs),
                 Number::BigInt(rhs) => match rhs.to_i32() {
                     Some(rhs) => lhs.partial_cmp(&Rational32::from_integer(rhs)),
                     None if rhs.is_negative() => Some(Ordering::Greater),
